@@ -179,8 +179,11 @@ where
 		for id in lock_inputs {
 			let mut coin = batch.get(&id.0, &id.1)?;
 			// inputs were chosen when the context was created, make sure no other
-			// transaction has reserved or spent them since
-			if coin.status == OutputStatus::Locked || coin.status == OutputStatus::Spent {
+			// transaction has reserved or spent them since, and that they are still on chain
+			if coin.status == OutputStatus::Locked
+				|| coin.status == OutputStatus::Spent
+				|| coin.status == OutputStatus::Reverted
+			{
 				return Err(Error::GenericError(format!(
 					"Output {} is no longer available to be locked for this transaction",
 					id.0
